@@ -66,6 +66,14 @@ def judge(op, impl, model):
             feats = cyshape.features(json.loads(mq.group(1))) if mq else set()
             shape = ("chain-through-node-carried-by-with" if {"with", "pattern-uses-earlier-binding", "rel-pattern"} <= feats else "unrecognised-query-shape")
             return "reject multiplicity-only-difference:%s %s" % (shape, " ".join(w[2:])[:1500].replace(" ", "_"))
+        if names[0] == "path-in-reverse-order":
+            # a symptom, not a switch of the reference semantics: keyed by the enabling shape of the query, so that the same symptom on
+            # another shape is not covered by the registered finding
+            import cyshape
+            mq = re.match(r'q ("(?:[^"\\]|\\.)*")', op)
+            feats = cyshape.features(json.loads(mq.group(1))) if mq else set()
+            shape = ("path-variable-renamed-in-with" if "path-variable-renamed-in-with" in feats else "unrecognised-query-shape")
+            return "reject path-in-reverse-order:%s %s" % (shape, " ".join(w[2:])[:1500].replace(" ", "_"))
         return "reject deviation:%s %s" % (names[0], " ".join(w[2:])[:1500].replace(" ", "_"))
     if w[0] == "sql-runtime-error":
         m = re.search(r"usql=\d+ (\S+) graph=", v)
@@ -205,7 +213,10 @@ SPEC = {
             "pointer-typed nodes, which the reflection rendering does not determine, so the direction is NOT modelled; the theorems hold for both and the tie accepts either (the "
             "record counts how often the model's own approximation `flipOpt` names the order taken) — and on every generated graph satisfying "
             "the stage's hypothesis (GraphOK for S1, GraphOK2 for S2b / S2c) the two evaluators must agree. tie 2 (suite c01, SEARCH not proof): FOCUSED FAMILIES (harness/focused.go: variable-length step + >= 2 fixed hops with every subset of the suffix nodes already bound, "
-            "aggregate-only RETURN incl. collect / size(collect()) with LIMIT and no ORDER BY — one output row, so the LIMIT is deterministic —, aggregate traversal counts, collect membership) "
+            "aggregate-only RETURN incl. collect / size(collect()) with LIMIT and no ORDER BY — one output row, so the LIMIT is deterministic —, aggregate traversal counts, collect membership; a NAMED PATH bound by a MATCH whose own WHERE holds a pattern predicate, over patterns the optimiser reverses, the path / "
+            "nodes(p) / relationships(p) / length(p) observed directly and through WITH (path VALUES are compared as ordered node and relationship lists; a result that is the Cypher "
+            "result with every path reversed is the symptom class `path-in-reverse-order`, keyed by the enabling query shape); string predicates and equalities whose literal contains "
+            "backslash, %, _ or a quote, on a graph whose names contain these characters next to look-alikes (Sql.eval's LIKE has PostgreSQL's escape semantics, Cy.eval compares raw strings)) "
             "+ every Cypher text of the repository corpora the translator accepts + structured "
             "random queries (levels 1-5) are translated by the REAL translator; the emitted statement is evaluated by Sql.eval on encode(g) and the source query by Cy.eval on g, for the "
             "fixed graph family, seeded random graphs and (sampled cases) all graphs up to N nodes / E edges with self loops, parallel edges, multi-kind nodes, missing properties; "
